@@ -132,4 +132,30 @@ MUTANTS = [
             self.copy_to_path(
                 os.path.join(rsrc_folder, 'DBSerializableProtocol.h'),
                 rsrc_output_folder)"""),
+    # ---- C12 ------------------------------------------------------------------------
+    ('c12-set-repr', 'C12', 'stone/backends/python_types.py',
+     """            self.emit('{}._permissioned_tagmaps = {{{}}}'.format(
+                class_name, ', '.join(repr(caller) for caller in sorted(all_omitted_callers))))""",
+     """            self.emit('{}._permissioned_tagmaps = {}'.format(class_name, all_omitted_callers))"""),
+    ('c12-addr-order', 'C12', 'stone/backends/python_types.py',
+     """        remaining_annotations = sorted(
+            (annotation for _, annotation in all_annotations.difference(indirect_annotations)),
+            key=lambda annotation: (annotation.namespace.name, annotation.name))""",
+     """        remaining_annotations = [annotation for _, annotation in
+                                 all_annotations.difference(indirect_annotations)]"""),
+    ('c12-struct-callers-unsorted', 'C12', 'stone/backends/python_types.py',
+     """        for omitted_caller in sorted(child_omitted_callers | parent_omitted_callers, key=str):""",
+     """        for omitted_caller in (child_omitted_callers | parent_omitted_callers):"""),
+    ('c12-stubs-no-clear', 'C12', 'stone/backends/python_type_stubs.py',
+     """        self.import_tracker.clear()
+""", ""),
+    ('c12-embed-target-path', 'C12', 'stone/backends/python_client.py',
+     """            self.emit_raw(base)""",
+     """            self.emit_raw(base)
+            self.emit('# generated into {}'.format(self.target_folder_path))"""),
+    ('c12-objc-sticky-class-dict', 'C12', 'stone/backends/obj_c_types.py',
+     """                self.obj_name_to_namespace[data_type.name] = fmt_class_prefix(
+                    data_type)""",
+     """                self.obj_name_to_namespace.setdefault(data_type.name, fmt_class_prefix(
+                    data_type))"""),
 ]
